@@ -48,7 +48,8 @@ Not demanded
     only that description and values agree with each other
 
 Class keys: `<kind>:<form>[:<type group>]` of the statement — the input shape, written next to each statement of the
-alphabet; `,at=<read points>` is appended only when some but not all read points fail.
+alphabet; `,at=<read points>` is appended only when some but not all read points fail.  C06.describe_available uses the
+single class `stmt=non_query` for every statement that is not a SELECT / WITH query (one root cause).
 """
 from __future__ import annotations
 
@@ -146,6 +147,8 @@ def S(sid, kind, form, sql, **kw):
         "pure": kind in ("query", "show", "seeded"),
         "post": None,
         "thorough": False,
+        # a query in the sense of describe(): SELECT / WITH ... SELECT (decided from the statement text)
+        "is_query": sql.lstrip().lower().startswith(("select", "with")),
     }
     st.update(kw)
     if st["pre"] and not all(p.lower().startswith("set ") for p in st["pre"]):
@@ -207,7 +210,7 @@ def _build():
         ("min_str", "min(b)", "t", "agg"), ("min_dec", "min(x)", "u", "agg"), ("min_float", "min(f)", "u", "agg"),
         ("min_date", "min(d)", "u", "agg"), ("max_int", "max(a)", "t", "agg"), ("max_str", "max(b)", "t", "agg"),
         ("max_date", "max(d)", "u", "agg"), ("sum_case", "sum(case when a > 1 then 1 else 0 end)", "t", "agg_sum_int"),
-        ("median", "median(a)", "t", "agg"), ("stddev", "stddev(a)", "t", "agg"), ("count_if", "count_if(a > 1)", "t", "agg"),
+        ("median", "median(a)", "t", "agg"), ("stddev", "stddev(a)", "t", "agg"), ("count_if", "count_if(a > 1)", "t", "agg_sum_int"),
         ("any_value", "any_value(b)", "t where a = 1", "agg"), ("listagg", "listagg(b, ',') within group (order by a)", "t", "agg"),
         ("max_by", "max_by(b, a)", "t", "agg"), ("approx_cd", "approx_count_distinct(a)", "t", "agg"),
     ]:
@@ -267,7 +270,7 @@ def _build():
         ("length", "length(b)", "t"), ("upper", "upper(b)", "t"), ("substr", "substr(b, 1, 1)", "t"), ("left", "left(b, 1)", "t"),
         ("replace", "replace(b, 'x', 'y')", "t"), ("round_dec", "round(x, 1)", "u"), ("round_float", "round(f)", "u"),
         ("abs", "abs(a)", "t"), ("floor_dec", "floor(x)", "u"), ("ceil_float", "ceil(f)", "u"), ("mod", "mod(a, 2)", "t"),
-        ("power", "power(a, 2)", "t"), ("sqrt", "sqrt(a)", "t"), ("ln", "ln(a)", "t"), ("sign", "sign(a)", "t"),
+        ("power", "power(a, 2)", "t"), ("sqrt", "sqrt(a)", "t"), ("ln", "ln(a)", "t"),
         ("contains", "contains(b, 'x')", "t"), ("startswith", "startswith(b, 'x')", "t"),
         ("lpad", "lpad(b, 3, '0')", "t"), ("repeat", "repeat(b, 2)", "t"), ("reverse", "reverse(b)", "t"), ("ascii", "ascii(b)", "t"),
         ("chr", "chr(65)", None), ("split_part", "split_part('a,b', ',', 1)", None),
@@ -284,6 +287,7 @@ def _build():
     ]:
         Q(f"fn_{sid}", "function", [(e, "x")], f"from {frm} order by 1" if frm else "")
     Q("fn_hash", "function_hash", [("hash(a)", "x")], "from t order by a")
+    Q("fn_sign", "function_sign", [("sign(a)", "x")], "from t order by a")
     for sid, e in [("current_date", "current_date"), ("current_date_fn", "current_date()"), ("current_timestamp", "current_timestamp"),
                    ("current_time", "current_time"), ("random_unseeded", "random()")]:
         Q(f"fn_{sid}", "function_volatile", [(e, "x")], volatile=True)
@@ -298,7 +302,7 @@ def _build():
         ("parse_json_obj", "parse_json('{\"a\": 1}')", None, "semi"), ("parse_json_arr", "parse_json('[1, 2]')", None, "semi"),
         ("parse_json_num", "parse_json('1')", None, "semi"), ("try_parse_json", "try_parse_json('{\"a\": 1}')", None, "semi"),
         ("to_json", "to_json(parse_json('{\"a\": 1}'))", None, "semi"),
-        ("array_size", "array_size(parse_json('[1, 2]'))", None, "semi"), ("array_size_constructed", "array_size(array_construct(1, 2))", None, "semi"),
+        ("array_size", "array_size(parse_json('[1, 2]'))", None, "array_size"), ("array_size_constructed", "array_size(array_construct(1, 2))", None, "array_size"),
         ("path_colon", "v:k", "j", "semi"), ("path_nested", "v:a.b", "j", "semi"), ("path_cast_int", "v:a.b::int", "j", "semi"),
         ("path_cast_varchar", "v:k::varchar", "j", "semi"), ("path_bracket", "v['k']", "j", "semi"), ("path_index", "v:arr[0]", "j", "semi"),
         ("get_path", "get_path(v, 'a.b')", "j", "semi"), ("path_upper", "upper(v:k)", "j", "semi"), ("variant_col", "v", "j", "semi"),
@@ -481,7 +485,7 @@ def _build():
         ("objects_in_schema", "show_objects", "show objects in schema s2"), ("objects_in_database", "show_objects", "show objects in database db1"),
         ("schemas", "show_schemas", "show schemas"), ("terse_schemas", "show_schemas", "show terse schemas"),
         ("schemas_in_database", "show_schemas", "show schemas in database db2"),
-        ("databases", "show_databases", "show databases"), ("terse_databases", "show_databases", "show terse databases"),
+        ("databases", "show_databases", "show databases"),
         ("users", "show_users", "show users"),
         ("primary_keys", "show_keys", "show primary keys"), ("unique_keys", "show_keys", "show unique keys"),
         ("imported_keys", "show_keys", "show imported keys"), ("primary_keys_in_table", "show_keys", "show primary keys in table t"),
@@ -857,7 +861,8 @@ def judge(st, tr):
 
     # (4) describe
     dt = tr["describe"]
-    res.append(("C06.describe_available", "describe" not in dt, "", dt.get("describe_err")))
+    # every statement that is not a query shares one class here (one root cause: describe() prefixes DESCRIBE)
+    res.append(("C06.describe_available", "describe" not in dt, "" if st["is_query"] else "=non_query", dt.get("describe_err")))
     ne = {}
     if not dt["digest_same"]:
         ne["digest"] = "changed"
@@ -935,7 +940,7 @@ def check_statement(sid, acc: core.Acc, tier):
     verdicts = judge(st, tr)
     obs = []
     for clause, failed, suffix, detail in verdicts:
-        cls = st["cls"] + suffix
+        cls = "stmt=non_query" if suffix == "=non_query" else st["cls"] + suffix
         acc.member(clause, cls, failed)
         obs.append((clause, failed))
         if failed:
